@@ -363,6 +363,24 @@ fn main() {
         "gen" => cmd_gen(m),
         "campaign" => cmd_campaign(m),
         "validate" => cmd_validate(m),
+        "brotli-selftest" => {
+            // the hand-made run-length meta-blocks decode to what they claim
+            use std::io::Read;
+            let raw: Vec<u8> = (0..100_000u32).map(|i| (i * 7) as u8).collect();
+            let mut code = 0;
+            for blocks in [0u32, 1, 3] {
+                let enc = disk::brotli_stored_tail(&raw, blocks);
+                let mut out = Vec::new();
+                let r = brotli_decompressor::Decompressor::new(&enc[..], 4096).read_to_end(&mut out);
+                let want = raw.len() + (blocks as usize) * (1 << 24);
+                let ok = r.is_ok() && out.len() == want && out[..raw.len()] == raw[..] && out[raw.len()..].iter().all(|b| *b == 0);
+                println!("blocks={} encoded={} decoded={} want={} ok={} {:?}", blocks, enc.len(), out.len(), want, ok, r.err());
+                if !ok {
+                    code = 1;
+                }
+            }
+            code
+        }
         _ => {
             eprintln!("unknown command {}", args[1]);
             2
